@@ -83,7 +83,7 @@ func c11NotSwallowed(c *Ctx, p *core.Prog, ctxErr map[*ssa.Function]bool, exempt
 							k = 1
 						}
 						start := iff.Block().Succs[k]
-						if w := swallowWitness(p, start, iff.Block(), ctxErr); w != "" && bad == "" {
+						if w := swallowWitnessV(p, start, iff.Block(), ctxErr, errv); w != "" && bad == "" {
 							bad = w
 						}
 					}
@@ -102,17 +102,43 @@ func c11NotSwallowed(c *Ctx, p *core.Prog, ctxErr map[*ssa.Function]bool, exempt
 	r.Floor("ctx-not-swallowed", n, 150, "calls to functions that can return a context error")
 }
 
-// swallowWitness explores the failure branch: a return with a nil error, or a call that parses on, is a witness.
+// swallowWitness explores the failure branch: a return with a nil error, or a call that parses on, is a witness. The
+// walk knows that the error is non-nil: merges that receive it on the edge taken stay non-nil, and a later
+// `if err != nil` over such a merge is followed on its true side only.
 func swallowWitness(p *core.Prog, start, from *ssa.BasicBlock, ctxErr map[*ssa.Function]bool) string {
-	seen := map[*ssa.BasicBlock]bool{from: true}
-	work := []*ssa.BasicBlock{start}
+	return swallowWitnessV(p, start, from, ctxErr, nil)
+}
+
+func swallowWitnessV(p *core.Prog, start, from *ssa.BasicBlock, ctxErr map[*ssa.Function]bool, errv ssa.Value) string {
+	type item struct {
+		b, pred *ssa.BasicBlock
+	}
+	nonNil := map[ssa.Value]bool{}
+	if errv != nil {
+		nonNil[errv] = true
+	}
+	seen := map[item]bool{}
+	work := []item{{start, from}}
 	for len(work) > 0 {
-		b := work[len(work)-1]
+		it := work[len(work)-1]
 		work = work[:len(work)-1]
-		if seen[b] {
+		if seen[it] || it.b == from {
 			continue
 		}
-		seen[b] = true
+		seen[it] = true
+		b := it.b
+		// phis receiving a known non-nil value on the edge we came along
+		for _, in := range b.Instrs {
+			ph, ok := in.(*ssa.Phi)
+			if !ok {
+				break
+			}
+			for k, pr := range b.Preds {
+				if pr == it.pred && k < len(ph.Edges) && nonNil[ph.Edges[k]] {
+					nonNil[ph] = true
+				}
+			}
+		}
 		var lastErrStore ssa.Value
 		for _, in := range b.Instrs {
 			switch x := in.(type) {
@@ -144,12 +170,35 @@ func swallowWitness(p *core.Prog, start, from *ssa.BasicBlock, ctxErr map[*ssa.F
 				}
 			}
 		}
-		if len(b.Instrs) > 0 {
-			if _, isRet := b.Instrs[len(b.Instrs)-1].(*ssa.Return); isRet {
-				continue
+		if len(b.Instrs) == 0 {
+			continue
+		}
+		if _, isRet := b.Instrs[len(b.Instrs)-1].(*ssa.Return); isRet {
+			continue
+		}
+		only := -1
+		if iff, ok := b.Instrs[len(b.Instrs)-1].(*ssa.If); ok {
+			if bo, ok := iff.Cond.(*ssa.BinOp); ok && (bo.Op == token.NEQ || bo.Op == token.EQL) {
+				var v ssa.Value
+				if core.IsNilConst(bo.Y) {
+					v = bo.X
+				} else if core.IsNilConst(bo.X) {
+					v = bo.Y
+				}
+				if v != nil && nonNil[v] {
+					only = 0
+					if bo.Op == token.EQL {
+						only = 1
+					}
+				}
 			}
 		}
-		work = append(work, b.Succs...)
+		for k, sc := range b.Succs {
+			if only >= 0 && k != only {
+				continue
+			}
+			work = append(work, item{sc, b})
+		}
 	}
 	return ""
 }
